@@ -81,9 +81,22 @@ def _leaves(body) -> bool:
 
 
 def _literal(test, pol) -> Tuple[ast.AST, bool]:
-    while isinstance(test, ast.UnaryOp) and isinstance(test.op, ast.Not):
-        test, pol = test.operand, not pol
-    return test, pol
+    """canonical literal: `not` and the negative comparison operators (!=, is not, not in) are folded into the polarity"""
+    while True:
+        if isinstance(test, ast.UnaryOp) and isinstance(test.op, ast.Not):
+            test, pol = test.operand, not pol
+            continue
+        if isinstance(test, ast.Compare) and len(test.ops) == 1:
+            flip = {ast.NotEq: ast.Eq, ast.IsNot: ast.Is, ast.NotIn: ast.In}
+            for neg, posop in flip.items():
+                if isinstance(test.ops[0], neg):
+                    test = ast.copy_location(ast.Compare(left=test.left, ops=[posop()], comparators=test.comparators), test)
+                    pol = not pol
+                    break
+            else:
+                return test, pol
+            continue
+        return test, pol
 
 
 def path_conditions(fn, target) -> List[Tuple[ast.AST, bool]]:
@@ -91,7 +104,19 @@ def path_conditions(fn, target) -> List[Tuple[ast.AST, bool]]:
     the tests of the enclosing if/while statements, and for every earlier sibling `if c: <leaves>` (guard clause) the fact
     `not c` (likewise `if c: ... else: <leaves>` gives `c`).  `not` is folded into the polarity."""
     p = path_to(fn, target)
-    out: List[Tuple[ast.AST, bool]] = []
+    raw: List[Tuple[ast.AST, bool]] = []
+
+    class _Out(list):
+        def append(self, fact):
+            # a true conjunction / a false disjunction is split into its members
+            t, pol = fact
+            if isinstance(t, ast.BoolOp) and ((isinstance(t.op, ast.And) and pol) or (isinstance(t.op, ast.Or) and not pol)):
+                for v in t.values:
+                    self.append(_literal(v, pol))
+            else:
+                list.append(self, (t, pol))
+
+    out = _Out()
     if p is None:
         return out
     for k, (block, idx) in enumerate(p):
